@@ -172,7 +172,8 @@ def run_model_ocaml(cases, chunk=200):
     shards = [lines[i::nproc] for i in range(nproc)]
     procs = []
     for sh in shards:
-        p = subprocess.Popen([drv], stdin=subprocess.PIPE, stdout=subprocess.PIPE, text=True)
+        p = subprocess.Popen(["bash", "-c", 'ulimit -s unlimited 2>/dev/null; exec "$0"', drv], stdin=subprocess.PIPE,
+                             stdout=subprocess.PIPE, text=True)
         procs.append((p, sh))
     outs = {}
     import threading
